@@ -142,8 +142,12 @@ fn parse_seq(s: &str) -> Result<u64, Stop> {
     u64::from_str_radix(s, 16).map_err(|e| tool(format!("seq: {}", e)))
 }
 
+/// Payload of the unwind `drop` starts when asked to run a destructor during unwinding
+struct DeliberateUnwind;
+
 fn op_drop(st: &State, c: &Cmd) -> OpResult {
     let name = c.str("ctx")?;
+    let unwinding = if c.has("unwinding") { c.boolean("unwinding")? } else { false };
     // Resolve the scan strings before touching anything
     let scans: Option<Vec<Vec<u8>>> = match c.has("scan") {
         false => None,
@@ -196,7 +200,26 @@ fn op_drop(st: &State, c: &Cmd) -> OpResult {
         let layout = std::alloc::Layout::for_value(&*raw);
         let p = raw as *mut u8;
         let before = volatile_copy(p, layout.size());
-        let dropped = catch_unwind(AssertUnwindSafe(|| std::ptr::drop_in_place(raw)));
+        let dropped = if unwinding {
+            // Run the destructor WHILE THIS THREAD UNWINDS (a context owned by a caller that panics): a guard whose
+            // Drop runs it, then a deliberate unwind that does not go through the panic hook
+            struct DropOnUnwind(*mut dyn DynCtx);
+            impl Drop for DropOnUnwind {
+                fn drop(&mut self) {
+                    unsafe { std::ptr::drop_in_place(self.0) }
+                }
+            }
+            let r = catch_unwind(AssertUnwindSafe(|| {
+                let _g = DropOnUnwind(raw);
+                std::panic::resume_unwind(Box::new(DeliberateUnwind));
+            }));
+            match r {
+                Err(p) if p.is::<DeliberateUnwind>() => Ok(()),
+                other => other,
+            }
+        } else {
+            catch_unwind(AssertUnwindSafe(|| std::ptr::drop_in_place(raw)))
+        };
         let after = volatile_copy(p, layout.size());
         if layout.size() != 0 {
             std::alloc::dealloc(p, layout);
@@ -579,6 +602,76 @@ fn exec_op(st: &State, op: &str, c: &Cmd, nested: bool) -> OpResult {
                 Kdf,
                 guard(|| ops::kdf_extract_and_expand::<Kdf>(&ikm, &suite_id, &info, len))
             )
+        }
+        "soak" => {
+            // Long runs on one session inside this process (no protocol round trip per call):
+            //   mode "reject":    `n` deliveries of the same bogus message (allocating and in-place forms alternate);
+            //                     every one must be refused with OpenError and leave the counter where it was
+            //   mode "roundtrip": `n` messages sealed by "ctx_s" and opened by "ctx", each must come back
+            // Reports how many iterations conformed ("done") and, if fewer than n, what the first other one did.
+            let n = c.int("n")?;
+            let aad = c.bytes("aad")?;
+            let hr = st.need_ctx(c.str("ctx")?)?;
+            let mut r = lock(&hr);
+            if r.role() != "R" {
+                return Err(tool("soak: ctx must be a receiver context"));
+            }
+            match c.str("mode")? {
+                "reject" => {
+                    let ct = c.bytes("ct")?;
+                    let before = r.get_seq();
+                    guard(|| {
+                        for i in 0..n {
+                            let res = if i % 2 == 0 || ct.len() < 16 {
+                                r.open_alloc(&ct, &aad).map(|_| ())
+                            } else {
+                                let (body, tag) = ct.split_at(ct.len() - 16);
+                                let mut buf = body.to_vec();
+                                r.open_detached(&mut buf, &aad, tag)
+                            };
+                            let ok = matches!(res, Err(ops::CtxErr(_, hpke::HpkeError::OpenError)));
+                            if !ok || r.get_seq() != before {
+                                let what = match res {
+                                    Ok(()) => "accepted".to_string(),
+                                    Err(ops::CtxErr(_, e)) => format!("{:?}", e),
+                                };
+                                let (sq, ov) = r.get_seq();
+                                return Ok(obj! {"done": i, "bad": what, "seq": format!("{:016x}", sq), "ovf": ov});
+                            }
+                        }
+                        Ok(obj! {"done": n})
+                    })
+                }
+                "roundtrip" => {
+                    let pt = c.bytes("pt")?;
+                    let hs = st.need_ctx(c.str("ctx_s")?)?;
+                    let mut s_ = lock(&hs);
+                    if s_.role() != "S" {
+                        return Err(tool("soak: ctx_s must be a sender context"));
+                    }
+                    let (s0, r0) = (s_.get_seq().0, r.get_seq().0);
+                    guard(|| {
+                        for i in 0..n {
+                            let mut p = pt.clone();
+                            p.extend_from_slice(&i.to_be_bytes());
+                            let bad = match s_.seal_alloc(&p, &aad) {
+                                Err(ops::CtxErr(_, e)) => Some(format!("seal: {:?}", e)),
+                                Ok(ct) => match r.open_alloc(&ct, &aad) {
+                                    Err(ops::CtxErr(_, e)) => Some(format!("open: {:?}", e)),
+                                    Ok(q) if q != p => Some("open returned another plaintext".to_string()),
+                                    Ok(_) => None,
+                                },
+                            };
+                            let counters = s_.get_seq() == (s0 + i + 1, false) && r.get_seq() == (r0 + i + 1, false);
+                            if bad.is_some() || !counters {
+                                return Ok(obj! {"done": i, "bad": bad.unwrap_or_else(|| "counter state".to_string())});
+                            }
+                        }
+                        Ok(obj! {"done": n})
+                    })
+                }
+                other => Err(tool(format!("soak: unknown mode {:?}", other))),
+            }
         }
         "par" => {
             if nested {
